@@ -473,6 +473,14 @@ func check(spec propSpec, tier string, seed int64, replayFile string) int {
 		c.cleanup()
 		die(2, "HARNESS-ERROR build: %v", err)
 	}
+	if spec.ID == "C14" {
+		// an auxiliary program with a minimal link set (see harness/drv/c14min); the driver runs it and compares
+		if out, err := run(filepath.Join(c.scratch, "h"), goEnv(), "go", "build", "-trimpath", "-o", c.binPath("aux.c14min"), "./drv/c14min"); err != nil {
+			c.notes = append(c.notes, "auxiliary program c14min did not build: "+firstLines(out, 6))
+		} else {
+			os.Setenv("VERIF_AUX_C14MIN", c.binPath("aux.c14min"))
+		}
+	}
 	var outs []procOut
 	switch {
 	case replayFile != "" && strings.HasSuffix(replayViolation(replayFile).Config, "+situ") && spec.Situ != "":
